@@ -17,6 +17,7 @@ VERIF_MSGS = [
     ('assertion failed', 'assert'),
     ('invariant not satisfied at end of loop body', 'loop-invariant-end'),
     ('invariant not satisfied before loop', 'loop-invariant-entry'),
+    ('loop invariant not satisfied', 'loop-invariant'),
     ('decreases not satisfied', 'decreases'),
     ('could not prove termination', 'decreases'),
     ('unreachable', 'panic-reachable'),
@@ -45,18 +46,36 @@ class Diag:
         self.level = d.get('level')
         self.rendered = d.get('rendered') or ''
         self.spans = d.get('spans', [])
+        self.unit_file = None
         self.category, self.kind = classify(self.message)
         if self.level == 'note' or self.level == 'warning':
             self.category = 'note'
 
+    def _resolve(self, s):
+        # follow macro expansions back to a span inside the unit file
+        seen = 0
+        while s is not None and self.unit_file and os.path.basename(s.get('file_name', '')) != self.unit_file and seen < 10:
+            ex = s.get('expansion')
+            s = ex.get('span') if ex else None
+            seen += 1
+        return s
+
     def primary(self):
-        for s in self.spans:
-            if s.get('is_primary'):
-                return s
+        cands = [s for s in self.spans if s.get('is_primary')] + [s for s in self.spans if not s.get('is_primary')]
+        for s in cands:
+            r = self._resolve(s)
+            if r is not None:
+                return r
         return self.spans[0] if self.spans else None
 
     def secondary(self):
-        return [s for s in self.spans if not s.get('is_primary')]
+        p = self.primary()
+        out = []
+        for s in self.spans:
+            r = self._resolve(s)
+            if r is not None and r is not p and not (p and r.get('byte_start') == p.get('byte_start') and r.get('byte_end') == p.get('byte_end')):
+                out.append(r)
+        return out
 
 
 class VerusResult:
@@ -72,8 +91,8 @@ class VerusResult:
         self.version = ''
 
 
-def run_verus(path, rlimit=None, seed=None, extra=(), timeout=900, threads=None):
-    cmd = [VERUS, path, '--output-json', '--time-expanded', '--multiple-errors', '50', '--error-format=json']
+def run_verus(path, rlimit=None, seed=None, extra=(), timeout=900, threads=None, multiple_errors=50):
+    cmd = [VERUS, path, '--output-json', '--time-expanded', '--multiple-errors', str(multiple_errors), '--error-format=json']
     if rlimit:
         cmd += ['--rlimit', str(rlimit)]
     if seed is not None:
@@ -109,6 +128,7 @@ def run_verus(path, rlimit=None, seed=None, extra=(), timeout=900, threads=None)
         if d.get('$message_type') and d.get('$message_type') != 'diagnostic':
             continue
         dg = Diag(d)
+        dg.unit_file = os.path.basename(path)
         if dg.message.startswith('aborting due to'):
             continue
         res.diags.append(dg)
